@@ -1267,6 +1267,17 @@ func isZeroValue(v any) bool {
 	}
 }
 
+// IsFieldOptional reports whether Parse accepts a value without the named field of the
+// shape: the field's own Optional flag as modified by Partial and Required. A name that is
+// not in the shape is reported optional.
+func (z *ZodStruct[T, R]) IsFieldOptional(field string) bool {
+	schema, ok := z.internals.Shape[field]
+	if !ok {
+		return true
+	}
+	return z.isFieldOptional(schema, field)
+}
+
 // isFieldOptional checks if a field schema is optional using reflection or partial state
 func (z *ZodStruct[T, R]) isFieldOptional(schema any, fieldName string) bool {
 	if schema == nil {
